@@ -430,11 +430,11 @@ theorem C19_battery_no_dir_as_found (ss : List Supply) (h : cfg.noDirNone = fals
     sensorsBattery cfg { dirExists := false, supplies := ss } = .error .osError := by
   simp [sensorsBattery, h]
 
-/- AFTER LANDING fixes/C19-battery-no-power-supply-dir.diff (then `./check C19 --rebaseline`): uncomment.
+/- fixes/C19-battery-no-power-supply-dir.diff has landed as /repo 0e1a768 (fact batteryNoDirNone = true):
+   obligation + the full statement for the code as it is -/
 theorem cfg_battery_no_dir : cfg.noDirNone = true := by decide
 theorem C19_battery_refines_full : C19_battery_refines_Full cfg :=
   fun p v h => battery_refines cfg cfg_good p v (Or.inl cfg_battery_no_dir) h
--/
 
 /-- no battery among the power supplies → None -/
 theorem C19_none_when_absent_battery (p : PowerTree) (hd : p.dirExists = true)
